@@ -154,9 +154,18 @@ def setup_profile():
     curid = ",".join([str(steps.index(cc) + 1) for cc in cur])
     for ii, st in enumerate(steps):
         print("  {}: {}".format(ii+1, st))
-    stp = input("(currently '{}'): ".format(curid))
-    if stp:
-        pf["preprocessing"] = [steps[int(ii) - 1] for ii in stp.split(",")]
+    while True:
+        stp = input("(currently '{}'): ".format(curid))
+        if stp:
+            new_steps = [steps[int(ii) - 1] for ii in stp.split(",")]
+            try:
+                # required steps must be present and in the correct order
+                preproc.check_order(new_steps)
+            except ValueError as exc:
+                print("Invalid preprocessing: {}".format(exc))
+                continue
+            pf["preprocessing"] = new_steps
+        break
 
     print("\nSelect model number:")
     models = sorted(model.models_available.keys())
@@ -201,9 +210,12 @@ def setup_profile():
     while True:
         rt = input("(currently '{}'): ".format(pf["range_type"]))
         if rt:
-            if rt not in ["absolute", "relative"]:
+            if rt not in ["absolute", "relative", "relative cp"]:
                 print("Please choose 'absolute' or 'relative'.")
                 continue
+            if rt == "relative":
+                # the fitter refers to this range type as "relative cp"
+                rt = "relative cp"
             pf["range_type"] = rt
         break
 
@@ -213,7 +225,7 @@ def setup_profile():
     if left:
         ival[0] = float(left)
     right = input("right [µm] (currently '{}'): ".format(ival[1]))
-    if left:
+    if right:
         ival[1] = float(right)
     pf["range_x"] = list(ival*1e-6)
 
